@@ -188,7 +188,7 @@ class Prov:
 
     # ------------------------------------------------------------------ public
     def env(self, body):
-        e = self._envs.get(body.id)
+        e = self._envs.get(body.cache_id)
         if e is None:
             e = self._analyse(body)
         return e
@@ -308,10 +308,10 @@ class Prov:
 
     def _analyse(self, body):
         env = BodyEnv(body)
-        self._envs[body.id] = env
-        if body.id in self._inprogress:
+        self._envs[body.cache_id] = env
+        if body.cache_id in self._inprogress:
             return env
-        self._inprogress.add(body.id)
+        self._inprogress.add(body.cache_id)
         for i in range(1, body.argc + 1):
             env.write(i, (), {("param", i, ())})
         for _round in range(40):
@@ -330,7 +330,7 @@ class Prov:
                     pass
             if not env.changed:
                 break
-        self._inprogress.discard(body.id)
+        self._inprogress.discard(body.cache_id)
         return env
 
     def _assign(self, body, env, s):
@@ -483,7 +483,7 @@ class Prov:
             return
         # 2. crate-local callee with a body
         cb = self.facts.body(t.get("res") or "") or self.facts.body(t.get("def") or "")
-        if cb is not None and cb.id not in self._inprogress:
+        if cb is not None and cb.cache_id not in self._inprogress:
             cenv = self.env(cb)
             for q, labs in list(cenv.env.get(0, {}).items()):
                 sub = set()
